@@ -19,9 +19,11 @@ package github
 // ---- constructors: value xor error (C06); the fact is structural (untagged) because callers rely on it
 
 //@ func (*Ecosystem).NewVersion
+//@   ensures text: result1 == nil ==> result0.original == arg1 || result0.original == strings.TrimSpace(arg1)   [C18]
 //@   ensures xor: (result0 != nil) == (result1 == nil)
 
 //@ func (*Ecosystem).NewVersionRange
+//@   ensures text: result1 == nil ==> result0.original == arg1 || result0.original == strings.TrimSpace(arg1)   [C18]
 //@   ensures xor: (result0 != nil) == (result1 == nil)
 
 // ---- ranges (C02: a comparator holds exactly when Compare says so; C20: membership depends only on order position)
@@ -46,9 +48,19 @@ package github
 
 // ---- helpers: the capture slices handed over by NewVersion have the length the regular expression fixes
 //@ func parseDateBasedVersion
+//@   ensures text: result1 == nil ==> result0.original == original   [C18]
 //@   requires len(matches) == 5
 //@   ensures xor: (result0 != nil) == (result1 == nil)
 
 //@ func parseSemanticVersion
+//@   ensures text: result1 == nil ==> result0.original == original   [C18]
 //@   requires len(matches) == 7
 //@   ensures xor: (result0 != nil) == (result1 == nil)
+
+// ---- stored text (C18)
+
+//@ func (*Version).String
+//@   ensures text: result == arg0.original   [C18]
+
+//@ func (*VersionRange).String
+//@   ensures text: result == arg0.original   [C18]
